@@ -2,7 +2,8 @@ import Mav.Spec.Msg
 /-
   Decidable per-definition check used by the enumerated (G-table) theorems of C03/C17:
   the model's `init` accepts the struct, the struct is in the spec's domain, and wire order, sizes
-  and CRC_EXTRA computed by the MODEL equal those the SPEC derives.
+  and CRC_EXTRA computed by the MODEL equal those the SPEC derives, and the byte-wide sizes did not wrap (`rwOkB`, the
+  hypothesis of the C04 theorems).
 -/
 namespace Mav
 
@@ -12,7 +13,8 @@ def layoutAgrees (st : Msg.GoStruct) : Bool :=
     rw.fields.map (·.index) == (Spec.Msg.wireOrder d).map (·.idx) &&
     rw.sizeNormal.toNat == Spec.Msg.sizeBase d &&
     rw.sizeExtended.toNat == Spec.Msg.sizeExt d &&
-    rw.crcExtra.toNat == Spec.Msg.crcExtra d
+    rw.crcExtra.toNat == Spec.Msg.crcExtra d &&
+    Msg.rwOkB rw
   | _, _ => false
 
 end Mav
